@@ -17,7 +17,8 @@
   pull rule needs: `pull_breaks_scoping_witness` shows that rule taking a `Good` term with sibling-shared
   binders to a term that re-binds a binder below itself and has a different value — the formal content of
   finding KF-shared-binder-unfold.  Under the extra hypothesis (`OperandOK` of Rules.lean: the operand's
-  binders are fresh for its siblings) the unfold rules preserve the value (`unfoldAt_sound`).
+  binders are fresh for its siblings) the unfold rules preserve the value (`unfoldAt_sound`); the other two
+  unfold branches (distribution, fusion) preserve the invariant outright (`unfoldAt_step_of_not_pull`).
 -/
 import FunsorVerif.Props.C08.Rules
 namespace FV.Props.C08
@@ -706,6 +707,107 @@ theorem norm_good {isU : OpK → R → Bool}
     (hmul : ∀ c, isU .mul c = true → c = 1) (hadd : ∀ c, isU .add c = true → c = 0)
     {t : Ex R} (hg : Good t) (fuel : Nat) : Good (norm isU fuel t) :=
   (norm_step (fun _ => 1) hmul hadd fuel t hg).good
+
+/-! ## the unfold passes other than the pull -/
+
+/-- **Distribution and fusion under unfold preserve the invariant** (optimizer.py:35-46, 57-67): at any
+    operand position where the PULL branch (optimizer.py:47-55) does not apply, the unfold step is a good
+    step from the invariant alone — value, scoping and sanity preserved, no new binder.  (`hsame`: the
+    operand is not a same-operator transient form, which the normalize cascade rewrites before unfold ever
+    sees it.)  The pull branch is the only one that needs more (`unfoldAt_sound`'s `OperandOK`) and the only
+    one that can break scoping (`pull_breaks_scoping_witness`). -/
+theorem unfoldAt_step_of_not_pull {red bin : OpK} {vars : List Name} {pre post : List (Ex R)} {v t' : Ex R}
+    (hg : Good (.contr red bin vars (pre ++ v :: post)))
+    (hnp : ∀ r' b' vars' ts', v = .contr r' b' vars' ts' → ¬((red = r' ∨ red = .null) ∧ r' = .add ∧ bin = .mul))
+    (hsame : ∀ r' b' vars' ts', v = .contr r' b' vars' ts' → r' ≠ b')
+    (h : unfoldAt red bin vars pre v post = some t') :
+    StepOK size (.contr red bin vars (pre ++ v :: post)) t' := by
+  cases v <;> try (simp [unfoldAt] at h; done)
+  rename_i r' b' vars' ts'
+  have hnp' := hnp r' b' vars' ts' rfl
+  have hsame' := hsame r' b' vars' ts' rfl
+  simp only [unfoldAt] at h
+  by_cases hA : r' = .null ∧ b' = .add ∧ bin = .mul
+  · -- distribution
+    rw [if_pos hA] at h
+    obtain ⟨hr', hb', hbin⟩ := hA
+    subst hr' hb' hbin
+    simp only [Option.some.injEq] at h
+    subst h
+    simp only [Good] at hg
+    obtain ⟨⟨hne, hrm, hrn, hbn⟩, hbind, hgl⟩ := hg
+    rw [goodList_append] at hgl
+    obtain ⟨hgpre, hgv⟩ := hgl
+    simp only [GoodList, Good] at hgv
+    obtain ⟨⟨⟨hne', hrm', hrn', hbn'⟩, hbind', hgts'⟩, hgpost⟩ := hgv
+    have hv' : vars' = [] := hrn' rfl
+    subst hv'
+    have hsubb : ∀ vt ∈ ts', ∀ d, d ∈ bndList (pre ++ vt :: post) →
+        d ∈ bndList (pre ++ Ex.contr .null .add [] ts' :: post) := by
+      intro vt hvt d hd
+      simp only [bndList_append, bndList, bnd, List.mem_append, List.nil_append] at hd ⊢
+      rcases hd with hd | hd | hd
+      · exact Or.inl hd
+      · exact Or.inr (Or.inl (mem_bndList.mpr ⟨vt, hvt, hd⟩))
+      · exact Or.inr (Or.inr hd)
+    refine ⟨?_, ?_, ?_⟩
+    · simp only [Good]
+      refine ⟨⟨by simpa using hne', hrm, hrn, fun e => by simp at e⟩, ?_, ?_⟩
+      · intro d hd hmem
+        obtain ⟨t, ht, hdt⟩ := mem_bndList.mp hmem
+        obtain ⟨vt, hvt, rfl⟩ := List.mem_map.mp ht
+        simp only [bnd, List.nil_append] at hdt
+        exact hbind d hd (hsubb vt hvt d hdt)
+      · rw [goodList_iff]
+        intro t ht
+        obtain ⟨vt, hvt, rfl⟩ := List.mem_map.mp ht
+        simp only [Good]
+        refine ⟨⟨by simp, by simp, fun _ => rfl, fun e => by simp at e⟩, by simp, ?_⟩
+        rw [goodList_append]
+        exact ⟨hgpre, by simp only [GoodList]; exact ⟨goodList_iff.mp hgts' vt hvt, hgpost⟩⟩
+    · intro d hd
+      simp only [bnd, List.mem_append] at hd ⊢
+      rcases hd with hd | hd
+      · exact Or.inl hd
+      · obtain ⟨t, ht, hdt⟩ := mem_bndList.mp hd
+        obtain ⟨vt, hvt, rfl⟩ := List.mem_map.mp ht
+        simp only [bnd, List.nil_append] at hdt
+        exact Or.inr (hsubb vt hvt d hdt)
+    · intro env
+      rw [eval_contr, eval_contr]
+      apply congrFun
+      apply redFold_congr
+      intro e
+      simp only [binFold_add, binFold_mul, List.map_map, List.map_append, List.map_cons, List.prod_append,
+        List.prod_cons, Function.comp_def, eval_contr, redFold_nil]
+      have hd := distrib_list (pre.map (fun t => t.eval (sr R) size e)).prod
+        (post.map (fun t => t.eval (sr R) size e)).prod (ts'.map (fun t => t.eval (sr R) size e))
+      rw [List.map_map] at hd
+      exact hd.symm
+  · rw [if_neg hA, if_neg hnp'] at h
+    by_cases hc : (r' = red ∨ r' = .null) ∧ (bin = b' ∨ bin = .null)
+    swap
+    · rw [if_neg hc] at h; exact absurd h (by simp)
+    · rw [if_pos hc] at h
+      apply fuseAt_step size hg
+      simp only [fuseAt]
+      have hcond : (r' = .null ∧ bin = b') ∨ (bin = .null ∧ (r' = red ∨ r' = .null)) := by
+        obtain ⟨hr, hb⟩ := hc
+        rcases hb with hb | hb
+        · rcases hr with hr | hr
+          · by_cases hnull : r' = .null
+            · exact Or.inl ⟨hnull, hb⟩
+            · by_cases hbn : bin = .null
+              · exact Or.inr ⟨hbn, Or.inl hr⟩
+              · exfalso
+                simp only [Good] at hg
+                obtain ⟨⟨_, hrm, _, _⟩, _, _⟩ := hg
+                subst hr hb
+                cases r' <;> cases bin <;> simp_all
+          · exact Or.inl ⟨hr, hb⟩
+        · exact Or.inr ⟨hb, hr⟩
+      rw [if_pos hcond]
+      exact h
 
 /-! ## the invariant holds of reflected terms — with or without sibling sharing -/
 
